@@ -387,7 +387,27 @@ def gen_kernel(repo, info):
     return out + FOOTER
 
 
-GENERATORS = [('Names.lean', gen_names), ('Checksum.lean', gen_checksum), ('Kernel.lean', gen_kernel)]
+def gen_susp(repo, info):
+    rr = ast.parse(_read(repo, 'pycdlib/rockridge.py'))
+    out = HEADER % 'pycdlib/rockridge.py'
+
+    def const(name, lean):
+        return _try(info, name, lambda: 'def %s : Nat := %d\n' % (lean, int(safe_eval(_module_assign(rr, name)))))
+
+    def blen(name, lean):
+        return _try(info, name, lambda: 'def %s : Nat := %d\n' % (lean, len(safe_eval(_module_assign(rr, name)))))
+    out += const('ALLOWED_DR_SIZE', 'allowedDrSize') + const('TF_FLAGS', 'tfFlags')
+    for n in ('EXT_ID_109', 'EXT_DES_109', 'EXT_SRC_109', 'EXT_ID_112', 'EXT_DES_112', 'EXT_SRC_112'):
+        out += blen(n, n.lower() + '_len')
+    # fixed entry lengths: the `length()` static methods that return a constant
+    for cls, lean in (('RRSPRecord', 'spLen'), ('RRRRRecord', 'rrLen'), ('RRCERecord', 'ceLen'), ('RRCLRecord', 'clLen'),
+                      ('RRPLRecord', 'plLen'), ('RRRERecord', 'reLen')):
+        out += _try(info, cls, lambda cls=cls, lean=lean: Fn(rr, cls + '.length', lean).translate().replace(' : Int :=', ' : Int :=') )
+    out += _try(info, 'RRSLRecord.header_length', lambda: Fn(rr, 'RRSLRecord.header_length', 'slHeaderLen').translate())
+    return out + FOOTER
+
+
+GENERATORS = [('Names.lean', gen_names), ('Susp.lean', gen_susp), ('Checksum.lean', gen_checksum), ('Kernel.lean', gen_kernel)]
 
 
 def generate(repo, outdir):
